@@ -374,7 +374,7 @@ impl TryFromView for ScionScmpPacket {
     #[inline]
     fn try_from_view(view: &Self::ViewType) -> Result<Self, ViewConversionError> {
         let header = ScionPacketHeader::try_from_view(view.header())?;
-        let payload = ScmpMessage::from_view(&view.scmp().message());
+        let payload = ScmpMessage::try_from_view(&view.scmp().message())?;
 
         Ok(Self { header, payload })
     }
